@@ -24,6 +24,7 @@ let zle a b = Z.leb a b
 let cap = z_of_int 64
 let two24 = pow2 (z_of_int 24)
 let two31 = pow2 (z_of_int 31)
+let two62 = pow2 (z_of_int 62)
 let s64 z = string_of_z (i64 z)        (* a size_t printed through (long long) *)
 
 let opt_part = function N -> None | I v -> Some v | Str "O" -> None | _ -> failwith "part"
@@ -37,15 +38,18 @@ let opt_int_ok = function None -> true | Some v -> int_ok v
 let ax_model n a b c =
   match slice_len n a b c with
   | LenUB -> "ub"
-  | LenInexact -> "inexact"
   | Len l ->
       let ls = i64 l in
       "ok " ^ string_of_z ls ^ " ;" ^
-      (if sane ls && not (ls = z0) then " " ^ String.concat "," (List.map (fun k -> s64 (compute_index k n a b c)) (range_upto ls)) else "")
+      (if sane ls && not (ls = z0) then " " ^ String.concat "," (List.map (fun k -> s64 (compute_index k n a b c)) (range_upto ls))
+       else if zlt cap ls && zlt ls two62 then " ~ " ^ String.concat "," (List.map (fun k -> s64 (compute_index k n a b c)) [z0; z_of_int 1; Z.sub ls (z_of_int 1)])
+       else "")
 let ax_spec n a b c =
   let l = py_len n a b c in
   "ok " ^ string_of_z l ^ " ;" ^
-  (if sane l && not (l = z0) then " " ^ String.concat "," (List.map (fun k -> string_of_z (py_index k n a b c)) (range_upto l)) else "")
+  (if sane l && not (l = z0) then " " ^ String.concat "," (List.map (fun k -> string_of_z (py_index k n a b c)) (range_upto l))
+   else if zlt cap l then " ~ " ^ String.concat "," (List.map (fun k -> string_of_z (py_index k n a b c)) [z0; z_of_int 1; Z.sub l (z_of_int 1)])
+   else "")
 let step_ok = function Some c -> not (c = z0) | None -> true
 
 (* ---------- several axes ---------- *)
@@ -68,7 +72,6 @@ let model_shape variadic shape sls =
   if variadic && var_oob shape sls then Error "trap out_of_range" else
   let r = shape_slice shape sls in
   if List.exists (fun x -> x = LenUB) r then Error "ub"
-  else if List.exists (fun x -> x = LenInexact) r then Error "inexact"
   else Ok (List.map (function Len l -> i64 l | _ -> z0) r)
 
 let show_idx_list f shp =
@@ -127,5 +130,15 @@ let () =
             dom = inq && multi_dom shape sls && not (variadic && var_oob shape sls) }
         end
     | _ -> failwith "multi") in
+  (* v1 I:n a b [c]: view::slice(a, ONE all-integer slice) on a 1-d array.  nmtools_tuple{slices...} with a single tuple is the
+     copy-deduction candidate: the slice is taken for a list of integer indices, dim - N_INT wraps, resize throws. *)
+  register "v1" (fun args -> match args with
+    | n :: a :: b :: rest ->
+        let n = getI n and a = opt_part a and b = opt_part b and c = (match rest with [c] -> opt_part c | _ -> None) in
+        let l = py_len n a b c in
+        { model = "trap length_error";
+          spec = if step_ok c then "ok " ^ string_of_z l ^ " ;" ^ (if l = z0 then "" else " " ^ String.concat "," (List.map (fun k -> string_of_z (py_index k n a b c)) (range_upto l))) else "unspecified";
+          dom = false }
+    | _ -> failwith "v1");
   register "mx" (multi mx_model mx_spec);
   register "vw" (multi vw_model vw_spec)
